@@ -33,6 +33,10 @@ def run(ctx):
     c01.r11(ctx)
     r38(ctx, core)
     r39(ctx)
+    r311(ctx, core)
+    r313(ctx, core)
+    from . import c01 as _c01
+    _c01.r110(ctx, 'R3.12')
     m = ctx.repo['cencoding']
     # R3.4: only the decoders matter for reading foreign files
     saved = c11.LOOPS
@@ -304,3 +308,83 @@ def r39(ctx, rule='R3.9'):
     sk = [c for c in ast.walk(f) if isinstance(c, ast.Call) and callee(c) == 'skip_definition_bytes']
     ctx.ob(rule, 'core.read_data_page:definition-bytes-skipped-for-this-pages-value-count',
            len(sk) == 1 and [norm(a) for a in sk[0].args] == ['io_obj', 'daph.num_values'], norm(sk[0]) if sk else '', core.loc(f))
+
+
+def r311(ctx, core, rule='R3.11'):
+    """v2 pages of a masked (nullable) output: the definition levels are decoded straight into the output's mask
+    (`defi = assign._mask`), so they must be turned into null flags *in place* (out=<that buffer>) - a rebinding
+    comparison leaves raw levels (1 = present) in the mask, i.e. the mask inverted"""
+    f = core.func('read_data_page_v2')
+    cfg = CFG(f)
+    alias = [st for st in iter_child_stmts(f.body) if isinstance(st, ast.Assign) and isinstance(st.targets[0], ast.Name)
+             and isinstance(st.value, ast.Attribute) and st.value.attr == '_mask']
+    ctx.ob(rule, 'core.read_data_page_v2:levels-decoded-into-the-output-mask', len(alias) == 1,
+           str([norm(a) for a in alias]), core.loc(f))
+    if len(alias) != 1:
+        return
+    name = alias[0].targets[0].id
+    inplace = []
+    for st in iter_child_stmts(f.body):
+        if isinstance(st, ast.Expr) and isinstance(st.value, ast.Call):
+            o = kwarg(st.value, 'out', 2)
+            if o is not None and norm(o) == name and 'max_def' in norm(st.value):
+                inplace.append(st)
+    ok = len(inplace) == 1
+    d = 'no in-place conversion with out=%s' % name
+    if ok:
+        st = inplace[0]
+        d = norm(st)
+        tests = [(norm(e.test), fld) for e, fld in cfg.enclosing_tests(st) if isinstance(e, ast.If)]
+        # allowed guards: the block that decoded the levels, and the non-repeated arm
+        inner = [t for t in tests if 'max_rep' in t[0]]
+        other = [t for t in tests if 'max_rep' not in t[0] and 'num_nulls' not in t[0]]
+        ok = cfg.exists_path(cfg.node_of(alias[0]), cfg.node_of(st)) and not other and all(t == ('max_rep', 'orelse') for t in inner)
+        d += ' under %s' % tests
+    ctx.ob(rule, 'core.read_data_page_v2:levels-in-the-output-mask-converted-in-place', ok, d, core.loc(alias[0]))
+
+
+MARKER_EXEMPT_GUARDS = {
+    'not nullable': 'masked outputs carry the nulls in their mask (R3.11)',
+    "assign.dtype != 'O'": 'object arrays are allocated holding None',
+    "not nullable and assign.dtype != 'O'": 'both of the above',
+}
+
+
+def r313(ctx, core, rule='R3.13'):
+    """v2 pages with nulls: wherever the defined values are scattered into the non-null slots of the output
+    (`out[~nulls...] = values`), the missing-value marker is written to the null slots under no narrower
+    condition - otherwise the slots keep whatever the pre-allocated frame held"""
+    f = core.func('read_data_page_v2')
+    cfg = CFG(f)
+
+    def slot(st):
+        if isinstance(st, ast.Assign) and isinstance(st.targets[0], ast.Subscript):
+            t = norm(st.targets[0].slice)
+            if 'nulls' in t:
+                return 'values' if '~nulls' in t else 'marker'
+        return None
+    scat = [st for st in iter_child_stmts(f.body) if slot(st) == 'values']
+    marks = [st for st in iter_child_stmts(f.body) if slot(st) == 'marker']
+    ctx.floor(rule, 'scatter sites into non-null slots (v2)', len(scat), 6)
+
+    def guards(st):
+        return [(norm(e.test), fld) for e, fld in cfg.enclosing_tests(st) if isinstance(e, ast.If)]
+    n = 0
+    for s_ in scat:
+        gs = guards(s_)
+        if any(g == ('nullable', 'body') for g in gs):
+            continue            # masked output: R3.11
+        n += 1
+        ok = False
+        detail = 'no marker store in the same arm'
+        for m_ in marks:
+            if not (cfg.exists_path(cfg.node_of(m_), cfg.node_of(s_)) or cfg.exists_path(cfg.node_of(s_), cfg.node_of(m_))):
+                continue
+            extra = [g for g in guards(m_) if g not in gs and not (g[1] == 'body' and g[0] in MARKER_EXEMPT_GUARDS)]
+            if not extra:
+                ok = True
+                break
+            detail = '`%s` is additionally conditioned on %s' % (norm(m_)[:60], extra)
+        ctx.ob(rule, 'core.read_data_page_v2:marker-written-wherever-values-are-scattered:%s' % norm(s_.targets[0])[:60], ok,
+               detail if not ok else 'marker store under the same conditions', core.loc(s_))
+    ctx.floor(rule, 'scatter sites needing a marker', n, 5)
